@@ -77,17 +77,21 @@ class ExcTable:
         return c in self.parent
 
 
+# helpers that only build and return an error object, for the program loaded last (set by pv.loader)
+EXC_FACTORIES: Dict[str, str] = {}
+
+
 def exc_class_of(expr: Optional[ast.AST]) -> Optional[str]:
     """Class name of `raise X(...)` / `raise X` / `raise mod.X(...)`; None if unknown (e.g. re-raise of a variable)."""
     if expr is None:
         return None
-    if isinstance(expr, ast.Call):
+    called = isinstance(expr, ast.Call)
+    if called:
         expr = expr.func
-    if isinstance(expr, ast.Name):
-        return expr.id
-    if isinstance(expr, ast.Attribute):
-        return expr.attr
-    return None
+    name = expr.id if isinstance(expr, ast.Name) else (expr.attr if isinstance(expr, ast.Attribute) else None)
+    if called and name in EXC_FACTORIES:
+        return EXC_FACTORIES[name]  # `raise helper(...)`, the helper only building the error object
+    return name
 
 
 def handler_classes(h: ast.ExceptHandler) -> List[str]:
